@@ -521,6 +521,14 @@ func (tdsChan *Channel) QueuePackage(ctx context.Context, pkg Package) error {
 		return ErrChannelClosed
 	}
 
+	// Do not queue anything if the package cannot be sent anyway - it
+	// would be left behind and sent as part of the next message.
+	if ctx != nil {
+		if err := ctx.Err(); err != nil {
+			return fmt.Errorf("passed context is closed: %w", err)
+		}
+	}
+
 	if acceptor, ok := pkg.(LastPkgAcceptor); ok {
 		if err := acceptor.LastPkg(tdsChan.lastPkgTx); err != nil {
 			return fmt.Errorf("error calling LastPkg on %s: %w", pkg, err)
